@@ -30,6 +30,7 @@ MAXC = "ruzstd::common::MAX_BLOCK_SIZE"
 
 
 def run(ctx):
+    MAXV = str(ctx.const(MAXC))       # named constants are folded to their value in the normal form
     crate = ctx.crate()
     R = "C05.who.growth"
 
@@ -73,7 +74,7 @@ def run(ctx):
         cix = hq.Index(cb)
         oks = [x for x in hq.find(cb["body"], lambda x: x.get("k") == "Call" and H.strip_generics(H.callee(x) or "").endswith("Result::Ok"))]
         cs = dom.conds(cix, oks[0]) if oks else []
-        ctx.check(any(c.endswith("<= %s)" % MAXC) for c in cs), RB, "block_content_size::guard", cb["file"],
+        ctx.check(any(c.endswith("<= %s)" % MAXV) for c in cs), RB, "block_content_size::guard", cb["file"],
                   "block size accepted only when <= MAX_BLOCK_SIZE", observed=cs)
         # literals
         db = ctx.hir(BD + "::decompress_block")
@@ -81,11 +82,11 @@ def run(ctx):
         psite = dom.one_call(db, "LiteralsSection::parse_from_header")
         sec = dix.canon(psite["recv"])
         regen = sec + ".regenerated_size"
-        gs = [g for g in dix.all_guards() if MAXC in g["raw"]]
-        ok = len(gs) == 1 and gs[0]["raw"] == "(%s < %s)" % (MAXC, regen) and gs[0]["errs"]
+        gs = [g for g in dix.all_guards() if MAXV in g["raw"]]
+        ok = len(gs) == 1 and gs[0]["raw"] == "(%s < %s)" % (MAXV, regen) and gs[0]["errs"]
         ctx.check(ok, RB, "decompress_block::literals-guard", db["file"],
                   "a literals section regenerating more than MAX_BLOCK_SIZE must be rejected", observed=[g["raw"] for g in gs])
-        want_pc = "(%s <= %s)" % (regen, MAXC)
+        want_pc = "(%s <= %s)" % (regen, MAXV)
         if gs:
             dl = dom.one_call(db, "decode_literals")
             ok = want_pc in dom.conds(dix, dl) and dix.canon(dl["args"][0]) == sec
@@ -157,7 +158,7 @@ def run(ctx):
                       "running total + amount appended must be entailed <= MAX_BLOCK_SIZE by a dominating guard "
                       "(needs %s >= 0)" % L.show(goal), observed=sorted(set(descr))[:6])
         # the guard diverts to an error
-        gs = [g for g in six.all_guards() if MAXC in g["raw"] or "MAX_BLOCK_SIZE" in g["raw"]]
+        gs = [g for g in six.all_guards() if MAXV in g["raw"]]
         ctx.check(len(gs) >= 2 and all(g["errs"] for g in gs), RB, "execute_sequences::guards-return-error", sb["file"],
                   "the bound guards must return an error", observed=[g["raw"] for g in gs])
         # running sum bookkeeping: += ll and += ml unconditionally per iteration, nothing else in the loop
